@@ -332,6 +332,13 @@ func (p SimpleCommonMessageSignatureProof) MergeSparse(s SparseSignatureProof) S
 	bsBefore := p.bitset.Clone()
 
 	for _, sparseSig := range s.Signatures {
+		// The key ID must be exactly a big endian uint16,
+		// matching HasSparseKeyID and the KeyIDChecker.
+		if len(sparseSig.KeyID) != 2 {
+			res.AllValidSignatures = false
+			continue
+		}
+
 		// Assuming the index can be represented in a 16 bit integer.
 		// This type is certainly not intended to support 32k public keys.
 		n := int(binary.BigEndian.Uint16(sparseSig.KeyID))
